@@ -302,6 +302,37 @@ pub fn gen_driver(prop: &str, rng: &mut Rng, sh: &mut Shards, out: &str, thoroug
                 items.push(Item::Ins(Ins::Print { what: PrintWhat::Reg }));
                 progs.push((Program { data: Vec::new(), items, interp: false, stdin: Vec::new(), note: format!("one-register-{}", sr) }, Layout::plain()));
             }
+            // the last byte shown is the last byte of the 1 MB space, one before it, one or two beyond it: by statement
+            // and by prompt command, DS-relative with DS far from 0 (seeded change C15-n)
+            for seg in [0xFFFFu32, 0xFFF0, 0xFFC1, 0x0000] {
+                for d in [-2i64, -1, 0, 1, 2] {
+                    let mb: i64 = 1 << 20;
+                    let n = mb - (seg as i64) * 16 + d;
+                    let a = mb - 33 - (seg as i64 % 5);
+                    let mut whats: Vec<PrintWhat> = vec![PrintWhat::Span(a as u32, (mb - a + d) as u32), PrintWhat::Range(a as u32, (mb - 1 + d) as u32)];
+                    if n <= 2000 { whats.insert(0, PrintWhat::DsSpan(n as u32)); }
+                    let head = |items: &mut Vec<Item>| {
+                        items.push(Item::Label("start".into()));
+                        items.push(Item::Ins(Ins::Mov { w: 16, dst: Opnd::Reg16("ax"), src: Opnd::Imm(seg as i32) }));
+                        items.push(Item::Ins(Ins::Mov { w: 16, dst: Opnd::Sreg("ds"), src: Opnd::Reg16("ax") }));
+                        items.push(Item::Ins(Ins::Mov { w: 8, dst: Opnd::Mem { seg: "", base: "", index: "", disp: (n - d - 1).rem_euclid(65536) as i32, has_disp: true }, src: Opnd::Imm(0x5A) }));
+                    };
+                    for w in whats.iter() {
+                        let mut items: Vec<Item> = Vec::new();
+                        head(&mut items);
+                        items.push(Item::Ins(Ins::Print { what: w.clone() }));
+                        items.push(Item::Ins(Ins::Print { what: PrintWhat::Reg }));
+                        progs.push((Program { data: Vec::new(), items, interp: false, stdin: Vec::new(), note: "print-top-statement".into() }, Layout::plain()));
+                    }
+                    let mut items: Vec<Item> = Vec::new();
+                    head(&mut items);
+                    items.push(Item::Ins(Ins::Int { n: 3 }));
+                    items.push(Item::Ins(Ins::Print { what: PrintWhat::Flags }));
+                    let mut stdin: Vec<ScriptLine> = whats.iter().enumerate().map(|(k2, w)| ScriptLine::print_radix(w.clone(), k2 % 2 == 1, [Radix::Dec, Radix::Hex, Radix::Bin][k2 % 3])).collect();
+                    stdin.push(ScriptLine::next(rng));
+                    progs.push((Program { data: Vec::new(), items, interp: false, stdin, note: "print-top-prompt".into() }, Layout::plain()));
+                }
+            }
             for i in 0..(200 * scale) {
                 let mut g = Gen::new(rng);
                 let mut k = Knobs::control();
@@ -972,6 +1003,11 @@ pub fn gen_driver(prop: &str, rng: &mut Rng, sh: &mut Shards, out: &str, thoroug
         }
     }
     run_batch(&bin, &dir, &progs, rng, sh, &format!("{}-runs", prop), 16);
+    // the repository's own example programs, byte for byte as their author wrote them (every driver-level check sees them;
+    // each owns its own tags of the verdicts)
+    if matches!(prop, "C08" | "C12" | "C16" | "C17" | "C18" | "C20") {
+        run_examples(&bin, &dir, sh, prop, rng);
+    }
     if std::env::var("VERIF_KEEP_SRC").is_err() {
         let _ = std::fs::remove_dir_all(&dir);
     }
@@ -1519,6 +1555,24 @@ pub fn gen_c15(rng: &mut Rng, sh: &mut Shards, out: &str, thorough: bool) {
         }
         cases.push((stepping.clone(), sin, i % 2 == 0, "prompt-commands".into()));
     }
+    // print statements and prompt print commands whose last byte is the last byte of the 1 MB space, one before it, or
+    // one / two beyond it -- with DS far from 0 for the DS-relative form (seeded change C15-n: `print mem :16` with
+    // DS = FFFFh indexed the memory at 100000h)
+    for seg in [0xFFFFu32, 0xFFF0, 0xFF00, 0xF001, 0x0000] {
+        for d in [-2i64, -1, 0, 1, 2] {
+            let mb: i64 = 1 << 20;
+            let n = mb - (seg as i64) * 16 + d;
+            let a = mb - 40 - (seg as i64 % 7);
+            let forms = [format!("print mem : {}", n), format!("print mem {} : {}", a, mb - a + d), format!("print mem 0x{:x} -> {}", a, mb - 1 + d), format!("PRINT MEM 0b{:b} : 0x{:x}", a, mb - a + d)];
+            if n > 70_000 { continue; }
+            for f in forms.iter() {
+                let src = format!("start:\nmov ax, {}\nmov ds, ax\n{}\nprint reg\n", seg, f);
+                cases.push((src.into_bytes(), b"".to_vec(), false, "print-top".into()));
+            }
+            let src = format!("start:\nmov ax, {}\nmov ds, ax\nint 3\nprint flags\n", seg);
+            cases.push((src.into_bytes(), format!("{}\n{}\n{}\n{}\nn\n", forms[0], forms[1], forms[2], forms[3]).into_bytes(), d == 0, "print-top-prompt".into()));
+        }
+    }
     let threads = 16;
     let results: Vec<Vec<serde_json::Value>> = {
         let chunk = (cases.len() + threads - 1) / threads;
@@ -1616,5 +1670,76 @@ fn cmdline_family(bin: &str, dir: &str, sh: &mut Shards) {
         let bytes: Vec<u8> = out.iter().take(600).cloned().collect();
         sh.count("cli:command-line", 1);
         sh.unit(&[serde_json::json!({"ev":"cmdline","argv":argv,"args":args.join(" "),"status":status,"timeout":timeout,"bytes":bytes,"ran":ran,"prompts":prompts})]);
+    }
+}
+
+fn examples_dir() -> String {
+    std::env::var("VERIF_EXAMPLES").unwrap_or_else(|_| "/repo/examples".to_string())
+}
+
+/// /repo/examples/*.s through the real binary: the real file's bytes, the transcribed tree (harness/src/examples.rs) with
+/// the real file's line numbers and texts.  Plain run; and, for the checks about stepping, prompts and messages, a
+/// single-stepped run (`-i`, every prompt answered `next`, with print commands in between).
+pub fn run_examples(bin: &str, dir: &str, sh: &mut Shards, prop: &str, rng: &mut Rng) {
+    std::fs::create_dir_all(dir).unwrap();
+    let ex = examples_dir();
+    for (k, (name, stmts)) in crate::examples::examples().iter().enumerate() {
+        match crate::examples::load(&ex, name, stmts, 900_000 + k) {
+            None => sh.count("examples-not-as-transcribed", 1),
+            Some((text, _p, ev)) => {
+                let r = Rendered { source: text.clone(), json: ev.clone() };
+                let evs = run_cli(bin, dir, 900_000 + k, &r, b"", false, 20_000);
+                sh.count(&format!("{}-example-runs", prop), 1);
+                sh.count(&format!("{}-example-steps", prop), evs.iter().filter(|e| e["ev"] == "step").count() as u64);
+                sh.unit(&evs);
+                if matches!(prop, "C16" | "C17" | "C20") {
+                    let mut script: Vec<ScriptLine> = Vec::new();
+                    for i in 0..400 {
+                        if i % 7 == 3 { script.push(rand_print_cmd(rng)); }
+                        script.push(ScriptLine::next(rng));
+                    }
+                    let mut ev2 = ev.clone();
+                    ev2["interp"] = serde_json::json!(true);
+                    ev2["stdin"] = serde_json::Value::Array(script.iter().map(|s| s.to_json()).collect());
+                    ev2["n"] = serde_json::json!(910_000 + k);
+                    let mut sin = Vec::new();
+                    for s in &script { sin.extend_from_slice(&s.bytes()); }
+                    let r2 = Rendered { source: text, json: ev2 };
+                    let evs = run_cli(bin, dir, 910_000 + k, &r2, &sin, true, 30_000);
+                    sh.count(&format!("{}-example-stepped-runs", prop), 1);
+                    sh.unit(&evs);
+                }
+            }
+        }
+    }
+}
+
+/// C11: the text of each example and the harness's own rendering of its transcribed tree (other letter case, other
+/// radix, other spacing) must make the assembler emit the same instruction and data lists
+pub fn examples_spelling(asm: &crate::exec::Asm, rng: &mut Rng, sh: &mut Shards) {
+    let ex = examples_dir();
+    let strip = |t: &str| -> String { t.split('\n').map(|l| l.split(';').next().unwrap_or("")).collect::<Vec<_>>().join("\n") };
+    for (k, (name, stmts)) in crate::examples::examples().iter().enumerate() {
+        match crate::examples::load(&ex, name, stmts, k) {
+            None => sh.count("examples-not-as-transcribed", 1),
+            Some((text, p, ev)) => {
+                let mut lists: Vec<Vec<String>> = Vec::new();
+                let mut texts = vec![strip(&text)];
+                for force in [Spelling { case: Case::Lower, radix: Radix::Dec, wide: false, nl: false }, Spelling { case: Case::Upper, radix: Radix::Bin, wide: true, nl: false }] {
+                    let mut lay = Layout::plain();
+                    lay.force = Some(force);
+                    texts.push(render(&p, &lay, rng, k).source);
+                }
+                for t in &texts {
+                    match asm.assemble(t) {
+                        Ok(a) => { let mut l = a.out.data.clone(); l.push("--code--".into()); l.extend(a.out.code.iter().cloned()); lists.push(l); }
+                        Err(e) => lists.push(vec![format!("refused: {}", e.chars().take(200).collect::<String>())]),
+                    }
+                }
+                let same = lists.iter().all(|l| *l == lists[0]) && !lists[0][0].starts_with("refused");
+                sh.count("example-spellings", 1);
+                sh.unit(&[serde_json::json!({"ev":"spelling","same":same,"ast":{"example":name,"items":ev["items"]},"lists":lists})]);
+            }
+        }
     }
 }
